@@ -424,7 +424,7 @@ func (c *CheckCtx) crossSolvers() {
 	checked := 0
 	var used []string
 	for _, sv := range []string{"z3-new", "cvc5"} {
-		r2 := &Runner{L: c.L, solver: sv, timeoutMs: c.R.timeoutMs, workers: c.R.workers}
+		r2 := &Runner{L: c.L, solver: sv, timeoutMs: c.R.timeoutMs, workers: c.R.workers, deadline: c.R.deadline}
 		jobs := make([]Job, len(c.Results))
 		for i, jr := range c.Results {
 			jobs[i] = jr.Job
